@@ -6,7 +6,7 @@ package heap
 
 // Representation invariant of priorityQueue: queue and names index each other, every item knows its slot.
 //@ pure wf(pq *priorityQueue) bool =
-//@     pq != nil && pq.names != nil
+//@     pq != nil && allocated(pq) && pq.names != nil && allocated(pq.names)
 //@  && (forall k int :: 0 <= k && k < len(pq.queue) ==>
 //@         pq.queue[k] != nil && allocated(pq.queue[k]) && pq.queue[k].index == k && (pq.queue[k].name in pq.names) && pq.names[pq.queue[k].name] == k)
 //@  && (forall s string :: (s in pq.names) ==>
@@ -113,7 +113,7 @@ package heap
 //@   requires typeis(h, *priorityQueue) && wf(pqOf(h)) && rootmin(pqOf(h))
 //@   requires typeis(x, *Item) && unbox(x, *Item) != nil && !has(pqOf(h), unbox(x, *Item).name)
 //@   requires forall k int :: 0 <= k && k < len(pqOf(h).queue) ==> pqOf(h).queue[k] != unbox(x, *Item)
-//@   modifies *pqOf(h), arrays(*Item), mapof(pqOf(h).names), heap(Item)
+//@   modifies pqOf(h).queue, arrays(*Item), mapof(pqOf(h).names), heap(Item)
 //@   ensures wf(pqOf(h)) && rootmin(pqOf(h)) && pqOf(h).names == old(pqOf(h).names)
 //@   ensures forall p *Item :: p.name == old(p.name) && p.priority == old(p.priority)
 //@   ensures forall s string :: has(pqOf(h), s) == (old(has(pqOf(h), s)) || s == unbox(x, *Item).name)
@@ -123,7 +123,7 @@ package heap
 //@ extern func container/heap.Pop
 //@   params h
 //@   requires typeis(h, *priorityQueue) && wf(pqOf(h)) && rootmin(pqOf(h)) && len(pqOf(h).queue) > 0
-//@   modifies *pqOf(h), arrays(*Item), mapof(pqOf(h).names), heap(Item)
+//@   modifies pqOf(h).queue, arrays(*Item), mapof(pqOf(h).names), heap(Item)
 //@   ensures typeis(result, *Item) && unbox(result, *Item) == old(pqOf(h).queue[0])
 //@   ensures wf(pqOf(h)) && rootmin(pqOf(h)) && pqOf(h).names == old(pqOf(h).names)
 //@   ensures forall p *Item :: p.name == old(p.name) && p.priority == old(p.priority)
@@ -133,7 +133,7 @@ package heap
 //@ extern func container/heap.Remove
 //@   params h, i
 //@   requires typeis(h, *priorityQueue) && wf(pqOf(h)) && rootmin(pqOf(h)) && 0 <= i && i < len(pqOf(h).queue)
-//@   modifies *pqOf(h), arrays(*Item), mapof(pqOf(h).names), heap(Item)
+//@   modifies pqOf(h).queue, arrays(*Item), mapof(pqOf(h).names), heap(Item)
 //@   ensures typeis(result, *Item) && unbox(result, *Item) == old(pqOf(h).queue[i])
 //@   ensures wf(pqOf(h)) && rootmin(pqOf(h)) && pqOf(h).names == old(pqOf(h).names)
 //@   ensures forall p *Item :: p.name == old(p.name) && p.priority == old(p.priority)
@@ -196,7 +196,7 @@ package heap
 //@ func Heap.Push
 //@   tags C01
 //@   requires hwf(h) && !hhas(h, name)
-//@   modifies *h.pq, arrays(*Item), mapof(h.pq.names), heap(Item)
+//@   modifies h.pq.queue, arrays(*Item), mapof(h.pq.names), heap(Item)
 //@   ensures [C01] hwf(h)
 //@   ensures [C01] view: forall s string :: hhas(h, s) == (old(hhas(h, s)) || s == name)
 //@   ensures [C01] others-keep-priority: forall s string :: old(hhas(h, s)) ==> hprio(h, s) == old(hprio(h, s))
@@ -207,7 +207,7 @@ package heap
 //@   tags C01
 //@   safety assert-type
 //@   requires hwf(h) && len(h.pq.queue) > 0
-//@   modifies *h.pq, arrays(*Item), mapof(h.pq.names), heap(Item)
+//@   modifies h.pq.queue, arrays(*Item), mapof(h.pq.names), heap(Item)
 //@   ensures [C01] hwf(h)
 //@   ensures [C01] pops-top: result == old(top(h))
 //@   ensures [C01] items-keep-identity: forall p *Item :: p.name == old(p.name) && p.priority == old(p.priority)
@@ -229,7 +229,7 @@ package heap
 //@ func Heap.Delete
 //@   tags C01
 //@   requires hwf(h)
-//@   modifies *h.pq, arrays(*Item), mapof(h.pq.names), heap(Item)
+//@   modifies h.pq.queue, arrays(*Item), mapof(h.pq.names), heap(Item)
 //@   ensures [C01] result == old(hhas(h, name))
 //@   ensures [C01] hwf(h)
 //@   ensures [C01] view: forall s string :: hhas(h, s) == (old(hhas(h, s)) && s != name)
